@@ -752,6 +752,12 @@ class ProcessStatus:
         :return: True if the process is not defined anywhere anymore.
         """
         del self.info_map[identifier]
+        # the process cannot be considered as running on a Supvisors instance that does not know it anymore
+        self.running_identifiers.discard(identifier)
+        if self.info_map:
+            # re-evaluate the synthetic state from the remaining information
+            other_identifier = next(iter(self.info_map))
+            self.update_status(other_identifier, self.info_map[other_identifier]['state'])
         return self.info_map == {}
 
     def update_status(self, identifier: str, new_state: ProcessStates) -> None:
